@@ -6,6 +6,7 @@
 -/
 import ConnectModel.Proto
 import ConnectProofs.Lemmas.Header
+import ConnectProofs.Lemmas.TrailerPrefix
 import ConnectProofs.C02
 import ConnectProofs.C05
 import ConnectProofs.C18
@@ -129,7 +130,113 @@ theorem binary_header_roundtrip (b : Bytes) :
     decodeBinaryHeader (encodeBinaryHeader b) = some b ∧ decodeBinaryHeader (b64EncodeStd b) = some b :=
   ⟨C18.binary_header_roundtrip b, C18.binary_header_roundtrip_padded b⟩
 
+/-! ### unary Connect: trailers travel as `Trailer-`-prefixed headers -/
+
+/-- in every branch the unary Connect client exposes the split of the response headers -/
+theorem clientConnectUnary_views (cfg : CCfg) (st : Bytes) (r : Resp) :
+    (clientConnectUnary cfg st r).header = (splitTrailerPrefixed r.header).1 ∧
+    (clientConnectUnary cfg st r).trailer = (splitTrailerPrefixed r.header).2 := by
+  simp only [clientConnectUnary]
+  split
+  · exact ⟨rfl, rfl⟩
+  · split
+    · split
+      · exact ⟨rfl, rfl⟩
+      · split <;> exact ⟨rfl, rfl⟩
+      · exact ⟨rfl, rfl⟩
+    · split
+      · split
+        · exact ⟨rfl, rfl⟩
+        · split
+          · split
+            · exact ⟨rfl, rfl⟩
+            · split <;> exact ⟨rfl, rfl⟩
+          · exact ⟨rfl, rfl⟩
+      · exact ⟨rfl, rfl⟩
+      · exact ⟨rfl, rfl⟩
+
+theorem reserved_no_prefix :
+    hasPrefix Gen.connectUnaryTrailerPrefix Gen.hdrContentType = false ∧
+    hasPrefix Gen.connectUnaryTrailerPrefix Gen.hdrConnectUnaryAcceptEncoding = false ∧
+    hasPrefix Gen.connectUnaryTrailerPrefix Gen.hdrConnectUnaryEncoding = false ∧
+    Gen.hdrContentType ≠ Gen.hdrConnectUnaryAcceptEncoding := by decide
+
+/-- the header map of a successful unary Connect response -/
+def unaryBase (c : HConn) (p : HProg) : Header :=
+  addTrailerPrefixed (mergeHeaders [(Gen.hdrContentType, [c.contentType]), (Gen.hdrConnectUnaryAcceptEncoding, [c.names])] p.header) p.trailer
+
+theorem serve_unary_header (c : HConn) (p : HProg) (hr : p.result = none) :
+    (serveConnectUnary c p).header = unaryBase c p ∨
+    (serveConnectUnary c p).header = (unaryBase c p).set Gen.hdrConnectUnaryEncoding c.respCompression := by
+  simp only [serveConnectUnary, hr, unaryBase]
+  split
+  · split
+    · exact Or.inl rfl
+    · split
+      · exact Or.inl rfl
+      · exact Or.inr rfl
+  · exact Or.inl rfl
+
+theorem unaryBase_wf (c : HConn) (p : HProg) : (unaryBase c p).wf := by
+  apply addTrailerPrefixed_wf
+  apply mergeHeaders_wf
+  simp [Header.wf, reserved_no_prefix.2.2.2]
+
+theorem ne_of_prefix {x y : Bytes} (hx : hasPrefix Gen.connectUnaryTrailerPrefix x = true)
+    (hy : hasPrefix Gen.connectUnaryTrailerPrefix y = false) : x ≠ y := by
+  intro e; rw [e, hy] at hx; cases hx
+
+theorem unaryBase_trailer (c : HConn) (p : HProg) (hT : p.trailer.wf) (hH : p.header.wf)
+    (hnp : ∀ q ∈ p.header, hasPrefix Gen.connectUnaryTrailerPrefix q.1 = false) (k : Bytes) :
+    (unaryBase c p).vals (Gen.connectUnaryTrailerPrefix ++ k) = p.trailer.vals k := by
+  unfold unaryBase
+  by_cases hk : k ∈ p.trailer.map (·.1)
+  · exact addTrailerPrefixed_trailer _ _ hT k hk
+  · rw [addTrailerPrefixed_absent _ _ k hk, vals_mergeHeaders _ _ hH, Header.vals_of_not_mem p.trailer k hk]
+    have hp := hasPrefix_append Gen.connectUnaryTrailerPrefix k
+    have h1 : Header.vals p.header (Gen.connectUnaryTrailerPrefix ++ k) = [] := by
+      apply Header.vals_of_not_mem
+      intro hm
+      simp only [List.mem_map] at hm
+      obtain ⟨q, hq, e⟩ := hm
+      have := hnp q hq
+      rw [e, hp] at this; cases this
+    rw [h1]
+    simp [Header.vals, ne_of_prefix hp reserved_no_prefix.1, ne_of_prefix hp reserved_no_prefix.2.1]
+
+/-- **connect_unary_trailers_roundtrip**: for a successful unary Connect call, whatever the
+    handler put into its trailers is what the client finds in the response's trailers — values
+    and per-key order unchanged, for every key. (Handler-set *header* keys must not themselves
+    start with `Trailer-`: such a header is indistinguishable from a trailer on the wire.) -/
+theorem connect_unary_trailers_roundtrip (c : HConn) (cfg : CCfg) (st : Bytes) (p : HProg) (hr : p.result = none)
+    (hT : p.trailer.wf) (hH : p.header.wf)
+    (hnp : ∀ q ∈ p.header, hasPrefix Gen.connectUnaryTrailerPrefix q.1 = false) (k : Bytes) :
+    (clientConnectUnary cfg st (serveConnectUnary c p)).trailer.vals k = p.trailer.vals k := by
+  rw [(clientConnectUnary_views cfg st _).2]
+  have hp := hasPrefix_append Gen.connectUnaryTrailerPrefix k
+  rcases serve_unary_header c p hr with h | h <;> rw [h]
+  · rw [split_trailer_vals _ (unaryBase_wf c p), unaryBase_trailer c p hT hH hnp]
+  · rw [split_trailer_vals _ (Header.set_wf _ _ _ (unaryBase_wf c p)),
+      Header.vals_set_ne _ _ _ _ (ne_of_prefix hp reserved_no_prefix.2.2.1), unaryBase_trailer c p hT hH hnp]
+
+/-- **connect_unary_headers_roundtrip**: … and the handler's response headers are found under
+    the client's response headers, for every key outside the protocol's own three. -/
+theorem connect_unary_headers_roundtrip (c : HConn) (cfg : CCfg) (st : Bytes) (p : HProg) (hr : p.result = none)
+    (hH : p.header.wf) (x : Bytes) (hx : hasPrefix Gen.connectUnaryTrailerPrefix x = false)
+    (hres : x ≠ Gen.hdrContentType ∧ x ≠ Gen.hdrConnectUnaryAcceptEncoding ∧ x ≠ Gen.hdrConnectUnaryEncoding) :
+    (clientConnectUnary cfg st (serveConnectUnary c p)).header.vals x = p.header.vals x := by
+  rw [(clientConnectUnary_views cfg st _).1]
+  have base : (unaryBase c p).vals x = p.header.vals x := by
+    unfold unaryBase
+    rw [addTrailerPrefixed_other _ _ x hx, vals_mergeHeaders _ _ hH]
+    simp [Header.vals, hres.1, hres.2.1]
+  rcases serve_unary_header c p hr with h | h <;> rw [h]
+  · rw [split_header_vals _ (unaryBase_wf c p) x hx, base]
+  · rw [split_header_vals _ (Header.set_wf _ _ _ (unaryBase_wf c p)) x hx, Header.vals_set_ne _ _ _ _ hres.2.2, base]
+
 /-! non-vacuity -/
+example : splitTrailerPrefixed (addTrailerPrefixed [([88], [[1]])] [([89], [[2], [3]])]) = ([([88], [[1]])], [([89], [[2], [3]])]) := by decide
+
 example : CleanValue [97, 32, 98] := by
   refine ⟨by decide, ?_, ?_⟩ <;> intro c h <;> simp at h <;> subst h <;> decide
 example : canonicalKey [88, 45, 84, 114, 97, 99, 101] = [88, 45, 84, 114, 97, 99, 101] := by decide
